@@ -11,6 +11,10 @@ _NOTE = ("Trusted: Lean 4.33.0 kernel; axioms propext, Classical.choice, Quot.so
 SUITES = {
     # surface M: the real erc20 keeper / msg server / hook rebuilt over the app's real stores with a scripted EVMKeeper
     "erc20": dict(quick_ops=4000, thorough_ops=40000, driver="erc20", accept_floor=25),
+    # honest worlds only: the first half of the operations on the script EVM without deviations, the second half on
+    # surface E: ethermint's real EVM with the compiled ERC20MinterBurnerDecimals, holder transactions through the real
+    # EvmKeeper.EthereumTx so that the application's own post-transaction hook fires on real receipts
+    "erc20e": dict(quick_ops=3000, thorough_ops=12000, driver="erc20", accept_floor=25),
 }
 
 _ASSUME = [
@@ -65,6 +69,27 @@ PROPS = {
     ),
 }
 
+_ASSUME3 = _ASSUME + [
+    "EnvOK3: the erc20 module account is on the bank's blocked list; the zero address is not the module address",
+    "HOpOK (closed world): the module account signs nothing and receives coins only through conversions; holders sending Ethereum transactions are not blocked addresses; hooks fire only through real transactions (receipts are not forged); an ERC-20's coin does not circulate before the token is registered; no contract self-destructs; ConvertCoin carries no denomination of hex-address form (excluded point = finding E1, a genuine violation on the real code)",
+    "external pairs: the token is the honest ERC20MinterBurnerDecimals ('standard ERC-20'); for other tokens the second clause is false (external_backing_needs_standard)",
+]
+
+PROPS["C03"] = dict(
+    suite="erc20e",
+    modules=["CantoVerif.Props.C03"],
+    theorems=[
+        "CV.Erc20.Token.backing_step", "CV.Erc20.Token.backing_history", "CV.Erc20.Token.backing_hstep", "CV.Erc20.Token.backing_init",
+        "CV.Erc20.Token.native_backing", "CV.Erc20.Token.external_backing", "CV.Erc20.Token.destroyed_only_grows_by_holder_burns",
+        "CV.Erc20.Token.external_backing_needs_standard", "CV.Erc20.Token.exEnvOK3",
+        "CV.Erc20.Token.backing_coinPath", "CV.Erc20.Token.backing_erc20Path", "CV.Erc20.Token.backing_hookLog",
+        "CV.Erc20.Token.backing_transfer", "CV.Erc20.Token.backing_delete", "CV.Erc20.Token.backing_confined",
+        "CV.Erc20.Token.backing_registry",
+    ],
+    comps={"outcome", "resp", "reg", "nonce", "meta", "params", "evm", "token", "bank", "send"},
+    assumptions=_ASSUME3,
+)
+
 TEXT = {
     "C15": dict(
         text=("Proved for the model, for every EVM behaviour (the EVM is an arbitrary oracle) and every operation sequence: registry_step / "
@@ -90,6 +115,23 @@ TEXT = {
               "sweep per run (2 pair kinds x 8 switch settings set by real messages x both message routes x receivers {self, third party with sends "
               "enabled/disabled, every module account} + hook route + ordinary transfer), monitors on every implementation transition."),
         note=_NOTE),
+    "C03": dict(
+        text=("Proved for the honest world (the erc20 keeper model against the honest ERC20MinterBurnerDecimals machine, receipts carrying exactly the "
+              "logs the tokens emitted): backing_step / backing_history - the invariant Backing is kept by every operation, accepted or rejected, "
+              "along every sequence: conversions in either direction by message (both pair kinds), holders' Ethereum transactions (transfers to the "
+              "module address with the hook converting, ordinary transfers, burns), registrations, toggles, parameter and send-switch changes, bank "
+              "transfers, genesis export/import, deployment of further tokens; native_backing (escrow = total supply + tokens holders destroyed "
+              "themselves, a ghost that only a holder's burn increases - hence escrow >= total supply), external_backing (bank supply of the coin <= "
+              "tokens the module holds), destroyed_only_grows_by_holder_burns; boundary external_backing_needs_standard (machine-checked witness: a "
+              "forged Transfer log makes the hook mint unbacked coins). The honest-token model is validated on the REAL contract on ethermint's EVM "
+              "(surface E): the same operations, holder transactions through the real EvmKeeper.EthereumTx so that the real hook fires on real "
+              "receipts; totalSupply(), balanceOf of every tracked holder incl. the module, bank escrow and supply observed after every operation. "
+              "KNOWN FINDING E1 (genuine, reproduced on the real keeper + real EVM): ConvertCoin with a denomination that is a registered contract's "
+              "address written as 40 hex digits escrows that unrelated coin and mints the pair's tokens - excluded from the theorem by HOpOK, "
+              "reported by the monitor, listed in known_findings.json, patch proposed in design_notes/erc20-fix-E1.diff."),
+        note=_NOTE + "Closed-world side conditions HOpOK are hypotheses of the theorems (listed under assumptions). transferFrom/approve/burnFrom are not "
+             "separate operations of the model (ledger effect of transfer resp. burn by the owner); pausing is not modelled (the module never pauses; "
+             "a paused external token only makes conversions fail)."),
     "C04": dict(
         text=("Proved for the model with the contract/EVM as an arbitrary oracle (every answer to every call: balances, return words, logs, errors, "
               "reverts; answer scripts and a failure injected at the n-th call are instances): convert_failed_unchanged (rejected => both stores "
